@@ -68,6 +68,11 @@ def gen_case(seed, tier="quick"):
         both(dom)
         if done[0] and ["s", 1] not in pspace:
             pspace = pspace + [["s", 1]]
+    rp = rnd(seed, "product")
+    if rp.random() < 0.15 and not any(k_ in ("bleft", "bright") for k_ in G.kinds(dom)) \
+            and sum(1 for k_ in G.kinds(dom) if k_ in ("union", "cut", "inter")) <= 1:
+        # the parameter-dependent expression as a factor of a product with an interval of an own variable
+        dom = {"k": "prod", "a": dom, "b": GG.gen_iv(rp, "y")}
     full = {v: GG.q(r.uniform(0, 1)) for v, _ in pspace}
     names = [v for v, _ in pspace]
     steps = []
